@@ -22,6 +22,7 @@ PROP = {'title': 'Random wrappers are transparent and stay within the requested 
                     {'name': 'basic_param_getter<uniform_int>', 'source': 'harness/C20_probe_param_getter.cpp', 'flags': []},
                     {'name': 'convert_to<uniform_int>', 'source': 'harness/C20_probe_convert_to.cpp', 'flags': ['-DC20_PROBE_KIND=1']},
                     {'name': 'convert_to<uniform_real>', 'source': 'harness/C20_probe_convert_to.cpp', 'flags': ['-DC20_PROBE_KIND=2']},
+                    {'name': 'variate<uniform_container>', 'source': 'harness/C20_probe_variate_container.cpp', 'flags': []},
                     {'name': 'convert_to<normal>', 'source': 'harness/C20_probe_convert_to.cpp', 'flags': ['-DC20_PROBE_KIND=3']}],
  'deadline': {'quick': 240, 'thorough': 1500},
  'rule': 'nested loops: engines {minstd_rand, mt19937} x result types {short, int, long, long long, unsigned short, unsigned, unsigned '
